@@ -72,28 +72,30 @@ Proof.
   exists s2. auto.
 Qed.
 
-(* the error codes of the crash oracle really come out (the faults are not vacuous) *)
+Open Scope Z_scope.
+Definition finalf (e : bool) (ps : list fop) : res * sess := last (runf (sess0 e) ps) (Ok, sess0 e).
+Definition res_is (r : res) (c : Z) : bool := match r with Err c' => Z.eqb c c' | _ => false end.
+Definition is_none {A} (x : option A) : bool := match x with None => true | _ => false end.
+
+(* the crash oracle is not vacuous: the driver failure after the second statement of the flush comes out,
+   the transaction is DEACTIVE, the INSERT that had run is gone from the connection's rows *)
 Definition w_fault : list fop :=
   [Plain (ONew 1 0); Plain (ONew 2 1); Plain OCommit; Plain (OSetV 0 2); Plain (ONew 3 1); Faulty (FStmt 1)].
-Lemma fault_fires : match last (runf (sess0 true) w_fault) (Ok, sess0 true) with
-                    | (r, st) => r = Err E_FAULT /\ hd_state st = Some DEACTIVE /\ work st 3%Z = None /\ committed st 3%Z = None
-                    end.
-Proof. vm_compute. repeat split; reflexivity. Qed.
+Definition fault_fires_check : bool :=
+  let (r, st) := finalf true w_fault in
+  res_is r E_FAULT && match stack st with f :: _ => tstate_eqb (fstate f) DEACTIVE | [] => false end &&
+  is_none (work st 3) && is_none (committed st 3).
+Lemma fault_fires : fault_fires_check = true.
+Proof. vm_compute. reflexivity. Qed.
 
 (* ---- known defect (finding C32-expunged-object-with-key-switch-left-detached) ---- *)
 (* the claim "an object added in the transaction is transient again after the failed flush was rolled
-   back" is false: new(1,0); flush; o.id = 2; flush failing in after_flush_postexec; rollback *)
+   back" is false: new(1,0); flush; o.id = 2; flush failing in after_flush_postexec; rollback leaves
+   the object with identity key 1 (detached) although no row 1 was ever committed *)
 Definition w_d7 : list fop :=
   [Plain (ONew 1 0); Plain OFlush; Plain (OSetPK 0 2); Faulty FPost; Plain ORollback].
-Definition added_objects_transient (ps : list fop) : Prop :=
-  match last (runf (sess0 false) ps) (Ok, sess0 false) with
-  | (r, st) => r = Ok -> forall o, o < nobj st -> okey (objs st o) = None
-  end.
-Theorem added_objects_transient_refuted : ~ added_objects_transient w_d7.
-Proof.
-  unfold added_objects_transient. intros H.
-  assert (X : match last (runf (sess0 false) w_d7) (Ok, sess0 false) with (r, st) => r = Ok /\ okey (objs st 0) = Some 1%Z /\ 0 < nobj st /\ committed st 1%Z = None end).
-  { vm_compute. repeat split; reflexivity. }
-  destruct (last (runf (sess0 false) w_d7) (Ok, sess0 false)) as [r st].
-  destruct X as [X1 [X2 [X3 _]]]. specialize (H X1 0 X3). congruence.
-Qed.
+Definition all_keyless (st : sess) : bool := forallb (fun o => is_none (okey (objs st o))) (all_objs st).
+Theorem added_objects_transient_refuted :
+  fst (finalf false w_d7) = Ok /\ all_keyless (snd (finalf false w_d7)) = false /\
+  okey (objs (snd (finalf false w_d7)) 0%nat) = Some 1 /\ committed (snd (finalf false w_d7)) 1 = None.
+Proof. vm_compute. repeat split; reflexivity. Qed.
